@@ -70,7 +70,7 @@ def make_world(rng):
     targets = sorted({rng.randrange(0x1000, 0x6000) for _ in range(5)} | {0x10, 0x4040})
     # where a user keeps things: sub-directories, spaces, non-ASCII (the suffixes .s/.o are kept: the
     # harness tells listings from objects by them)
-    d_in = rng.choice(["", "", "inputs/sub dir/", "d\u00e9p\u00f4t/", "~/", "$HOME/in/"])
+    d_in = rng.choice(["", "", "inputs/sub dir/", "d\u00e9p\u00f4t/", "~/", "$HOME/in/", "very/" * 45 + "deep/", "a=b,c/"])
     d_rules = rng.choice(["", "my rules/", "r/u/l/", "~/rules/", "$HOME/", "@rules/"])
     d_mac = rng.choice(["", "", "mac ros/", "~/", "@m/"])
     listings = []
@@ -251,6 +251,15 @@ def make_world(rng):
             add("macro", "args_rax_rbx", {"pattern": [{"@pm": None, "marg1": "rax"}, {"$not": ["fxsave"]}, {"@pm": None, "marg1": "rbx"}]}, li, macros=[d_mac + "m_args.yaml"])
             add("macro", "args_rbx_rax", {"pattern": [{"@pm": None, "marg1": "rbx"}, {"$not": ["fxsave"]}, {"@pm": None, "marg1": "rax"}]}, li, macros=[d_mac + "m_args.yaml"])
             add("macro", "nomacro_same_pattern", {"pattern": [items[0], body_ok, items[2]]}, li)
+            # two libraries with the same file name in different directories
+            files["libA/lib.yaml"] = files[d_mac + "m_ok.yaml"]
+            files["libB/lib.yaml"] = files[d_mac + "m_bad.yaml"]
+            macro_docs["libA/lib.yaml"] = macro_docs[d_mac + "m_ok.yaml"]
+            macro_docs["libB/lib.yaml"] = macro_docs[d_mac + "m_bad.yaml"]
+            add("macro", "samebase_A", {"pattern": copy.deepcopy(pat)}, li, macros=["libA/lib.yaml"])
+            add("macro", "samebase_B", {"pattern": copy.deepcopy(pat)}, li, macros=["libB/lib.yaml"])
+            add("macro", "samebase_AB", {"pattern": copy.deepcopy(pat)}, li, macros=["libA/lib.yaml", "libB/lib.yaml"])
+            add("macro", "samebase_BA", {"pattern": copy.deepcopy(pat)}, li, macros=["libB/lib.yaml", "libA/lib.yaml"])
             # layered: a library macro whose body refers to a macro every rule defines for itself
             macro_docs[d_mac + "m_layer.yaml"] = {"macros": [{"name": "@outer", "pattern": [{"$or": ["@inner", rng.choice(rules.DECOY_MN)]}]},
                                                      {"name": "@outer2", "pattern": [{"$and": [items[0], "@inner"]}]}]}
@@ -337,7 +346,7 @@ def make_world(rng):
             add("emptymatch", vname, {"pattern": pat}, li)
     if rng.random() < 0.5:
         reg = "%" + rng.choice(gen.REG64)
-        n_run = rng.randrange(280, 420)
+        n_run = rng.choice([rng.randrange(280, 420), rng.randrange(1000, 1300)])
         long_instrs = [gen.gen_instruction(rng, addr_pool=targets) for _ in range(3)] + [("push", [reg])] * n_run + [("ret", [])]
         text, _e = gen.render_listing(rng, long_instrs, base=0x10000)
         nm = f"{d_in}a_long.s"
